@@ -243,6 +243,10 @@ func analyzeText(text string) *shape {
 			case "WITH":
 				if sh.verb == "" {
 					cur = "with"
+				} else if sh.verb == "INSERT" && !inConflict {
+					// INSERT INTO t WITH ... SELECT: part of the source
+					insSel = true
+					cur = "insert-select"
 				}
 			case "SELECT":
 				switch {
@@ -773,21 +777,17 @@ func startEnv() (*env, error) {
 		e.mu.Unlock()
 	})
 
-	// liveness: with every grant a plain read succeeds, with none it is
-	// refused; otherwise every later verdict would be vacuous
+	// liveness: with every grant a plain read succeeds; otherwise every
+	// later verdict would be vacuous (nothing is ever allowed). The opposite
+	// direction (no grant -> refused) is an instance of the property itself
+	// and is judged by the first fixed cases.
 	all := Case{Grants: allGrants(), DSNAdmin: true}
 	if err := e.applyGrants(all); err != nil {
 		return nil, err
 	}
-	if r := e.send(Case{Stmts: []Stmt{{SQL: "SELECT a FROM t1"}}, Route: "post", Body: "string"}); r.Status != 200 {
-		return nil, fmt.Errorf("liveness: full grants, SELECT a FROM t1 -> %d %s", r.Status, r.Body)
-	}
-	if err := e.applyGrants(Case{}); err != nil {
-		return nil, err
-	}
 	for _, route := range []string{"post", "tx"} {
-		if r := e.send(Case{Stmts: []Stmt{{SQL: "SELECT a FROM t1"}}, Route: route, Body: "string"}); r.Status != 403 {
-			return nil, fmt.Errorf("liveness: no grants, %s SELECT a FROM t1 -> %d %s (403 expected)", route, r.Status, r.Body)
+		if r := e.send(Case{Stmts: []Stmt{{SQL: "SELECT a FROM t1"}}, Route: route, Body: "string"}); r.Status != 200 {
+			return nil, fmt.Errorf("liveness: full grants, %s SELECT a FROM t1 -> %d %s", route, r.Status, r.Body)
 		}
 	}
 	return e, nil
@@ -1177,8 +1177,18 @@ func oracle(c Case) vkit.Outcome {
 			n := missing[0]
 			sig := n.sig()
 			if unitFail == nil || unitFail.Sig != sig {
-				// the analyzer reports the table, yet the endpoint let it through
-				sig += " route=" + map[string]string{"post": "@sql", "put": "@sql", "tx": "@transaction", "txrows": "@transaction"}[c.Route]
+				// the analyzer reports the table (or the schema change), yet
+				// the endpoint let it through: the cause is the endpoint's
+				// handling of that usage, whatever the expression position
+				route := map[string]string{"post": "@sql", "put": "@sql", "tx": "@transaction", "txrows": "@transaction"}[c.Route]
+				switch n.Mode {
+				case "read":
+					sig = "read not enforced route=" + route
+				case "write":
+					sig = n.Kind + " write route=" + route
+				default:
+					sig = n.Kind + " ddl route=" + route
+				}
 			}
 			var ms []string
 			for _, m := range missing {
@@ -1392,6 +1402,14 @@ func fixed() []Case {
 		{`SELECT name FROM main.sqlite_master`, nil},
 	}
 	var out []Case
+	// no grant at all
+	for _, route := range []string{"post", "put", "tx", "txrows"} {
+		c := Case{Stmts: []Stmt{{SQL: `SELECT a FROM t1`}}, Route: route, Grants: []string{}, GrantMode: "fixed"}
+		if route == "post" || route == "put" {
+			c.Body = "string"
+		}
+		out = append(out, c)
+	}
 	for _, f := range list {
 		g, adm := except(f.drop...)
 		for _, route := range []string{"post", "tx"} {
